@@ -47,6 +47,15 @@ FLOORS = {"keys_ok": (1500, 30000), "restrict_checked": (1200, 25000), "outside_
 SHARDS_QUICK = 4
 
 
+def deep_reordered(o):
+    """An equal dictionary whose mappings (top level, sections, sections inside lists) list their entries in reverse order."""
+    if isinstance(o, dict):
+        return {k: deep_reordered(o[k]) for k in reversed(list(o))}
+    if isinstance(o, list):
+        return [deep_reordered(x) for x in o]
+    return copy.deepcopy(o)
+
+
 def uncached(obj, o):
     with labrea.cache.disabled():
         return observe(obj.evaluate, copy.deepcopy(o))
@@ -149,7 +158,9 @@ def check_case(ctx, program, o, G, seen, corpus, tag="random"):
     rng = case_rng(ctx, hash(spec_hash([program, o])) & 0xFFFF)
     compared = 0
     # noise / permutation
-    for variant, o2 in (("noise", U.with_noise(rng, o)), ("permuted", U.permuted(rng, o))):
+    for variant, o2 in (("noise", U.with_noise(rng, o)), ("permuted", U.permuted(rng, o)), ("deep-reordered", deep_reordered(o))):
+        if variant == "deep-reordered" and star:
+            continue  # (AllOptions exposes the dictionary, order included, as a value)
         if variant == "noise" and star:
             continue  # AllOptions refers to every key, so no key is 'never mentioned'
         k2 = keys_of(root, o2)
